@@ -31,6 +31,15 @@ func (p *Program) LoadSpecFuncs(dir string) error {
 			}
 		}
 		for _, s := range stmts {
+			if strings.HasPrefix(s, "ghostfield ") {
+				// ghostfield name Sort : a ghost attribute of heap objects (one array indexed by reference)
+				parts := strings.Fields(s)
+				if len(parts) != 3 {
+					return fmt.Errorf("%s: ghostfield needs a name and a sort: %q", f, s)
+				}
+				p.ghostFields[parts[1]] = Sort(parts[2])
+				continue
+			}
 			kind := "spec"
 			if strings.HasPrefix(s, "ghost ") {
 				kind = "ghost"
